@@ -1,6 +1,7 @@
 /-
 C11 — No request observes state left over from an earlier request.
 -/
+import FhVerif.Proofs.ReqConf
 import FhVerif.Model.LoopLocals
 import FhVerif.Gen.Resets
 
@@ -63,5 +64,77 @@ theorem rejection_ends_connection (l : Locals) (i : IterIn) (h : (iter l i).hand
 /-! non-vacuity -/
 example : (runIters {} [⟨.noExpect, false, false⟩, ⟨.rejectedByContinueHandler, false, false⟩, ⟨.noExpect, false, false⟩]).length = 2 := by
   decide
+
+/-! ### per-request RequestConfig (Server.HeaderReceived) never leaks into a later request -/
+section ReqConf
+open Fh.Model.ReqConf Fh.Proofs.ReqConf
+
+/-- what holds between two loop iterations -/
+def RCInv (c : SrvCfg) (v : Vars) : Prop :=
+  (c.hasHook = false → v.maxBody = srvMax c ∧ v.writeTimeout = c.writeTimeout) ∧
+  v.wdlSet = decide (v.prevWriteTimeout > 0) ∧
+  (v.rdl = .request → v.reqRdl = true)
+
+theorem rc_init (c : SrvCfg) : RCInv c (init c) ∧ (init c).rdl ≠ .request := by
+  refine ⟨⟨fun _ => ⟨rfl, rfl⟩, by simp [init], by simp [init]⟩, by simp [init]⟩
+
+/-- one iteration: the body limit and the write deadline a request gets are functions of the server's settings and
+    of ITS OWN configuration, the read deadline under which the server waits for it was not set by another request,
+    and the invariant is re-established -/
+theorem rc_iter (c : SrvCfg) (n : Nat) (k : Conf) (v : Vars) (h : RCInv c v) (h1 : n = 1 → v.rdl ≠ .request) :
+    RCInv c (iter c n k v).1 ∧ (iter c n k v).2.maxBody = ownMax c k ∧ (iter c n k v).2.wdl = ownWdl c k ∧
+    (iter c n k v).2.rdlWaiting ≠ .request := by
+  obtain ⟨hA, hB, hC⟩ := h
+  have t := top_fields c n v
+  have tr := top_rdl c n v hC h1
+  have f := firstByte_fields c n (top c n v)
+  have hk := hook_fields c k (firstByte c n (top c n v))
+  have hl := hook_limits c k (firstByte c n (top c n v)) (by
+    intro hh; have := hA hh; rw [f.1, f.2.1, t.1, t.2.1]; exact this)
+  have bw := beforeWrite_fields (hook c k (firstByte c n (top c n v)))
+  have bwl := beforeWrite_wdl (hook c k (firstByte c n (top c n v))) (by
+    rw [hk.1, hk.2.1, f.2.2.1, f.2.2.2.1, t.2.2.1, t.2.2.2]; exact hB)
+  show RCInv c (beforeWrite (hook c k (firstByte c n (top c n v)))) ∧
+    (hook c k (firstByte c n (top c n v))).maxBody = ownMax c k ∧
+    (beforeWrite (hook c k (firstByte c n (top c n v)))).wdlSet = ownWdl c k ∧ (top c n v).rdl ≠ .request
+  refine ⟨⟨?_, bwl.2, ?_⟩, hl.1, ?_, tr.1⟩
+  · intro hh
+    rw [bw.1, bw.2.1, hl.1, hl.2]
+    simp [ownMax, hh]
+  · rw [bw.2.2.1, bw.2.2.2]
+    intro hr
+    exact hk.2.2 hr (f.2.2.2.2.2 tr.1)
+  · rw [bwl.1, hl.2]
+    unfold ownWdl
+    by_cases a : c.hasHook = true ∧ k.wt > 0
+    · simp [a]
+    · simp only [if_neg a]
+
+/-- C11 (per-connection decisions): on a connection carrying any sequence of requests with any RequestConfigs, the
+    i-th request is read under ITS OWN body limit, answered under ITS OWN write deadline, and the server never waits
+    for it under a read deadline that an earlier request asked for -/
+theorem request_config_is_per_request (c : SrvCfg) (ks : List Conf) :
+    ∀ (n : Nat) (v : Vars), 1 ≤ n → RCInv c v → (n = 1 → v.rdl ≠ .request) →
+      ∀ p ∈ (run c n v ks).zip ks, p.1.maxBody = ownMax c p.2 ∧ p.1.wdl = ownWdl c p.2 ∧ p.1.rdlWaiting ≠ .request := by
+  induction ks with
+  | nil => intro n v _ _ _ p hp; simp [run] at hp
+  | cons k rest ih =>
+    intro n v hn h h1 p hp
+    have hi := rc_iter c n k v h h1
+    simp only [run, List.zip_cons_cons, List.mem_cons] at hp
+    rcases hp with rfl | hp
+    · exact hi.2
+    · exact ih (n + 1) (iter c n k v).1 (by omega) hi.1 (by intro h; omega) p hp
+
+/-- the same from the first request of a connection -/
+theorem request_config_is_per_request_from_start (c : SrvCfg) (ks : List Conf) :
+    ∀ p ∈ (run c 1 (init c) ks).zip ks, p.1.maxBody = ownMax c p.2 ∧ p.1.wdl = ownWdl c p.2 ∧ p.1.rdlWaiting ≠ .request :=
+  request_config_is_per_request c ks 1 (init c) (Nat.le_refl 1) (rc_init c).1 (fun _ => (rc_init c).2)
+
+/-! non-vacuity: request 1 asks for a 16-byte limit, a write timeout and a read timeout; request 2 asks for nothing and
+    gets the server's 4 MiB limit, no write deadline, and is not awaited under request 1's read deadline -/
+example : run ⟨0, 0, 0, 0, true⟩ 1 (init ⟨0, 0, 0, 0, true⟩) [⟨3, 5000, 16⟩, ⟨0, 0, 0⟩] =
+    [⟨.none, 16, true⟩, ⟨.none, 4194304, false⟩] := by decide
+end ReqConf
 
 end Fh.Props.C11
